@@ -7,7 +7,7 @@ THEOREMS = core.pinned('C08')
 def explore(ck):
     r = ck.rng; quick = ck.tier == 'quick'
     ck.rule = ('the C07 histories with few distinct addresses (many outputs per address, P2PK and P2PKH of one key, spend-and-refund, zero values) x ranges x coins; compared: balances rows vs model, '
-               'and the per-address aggregation of the real unspentcsvdump run vs the real balances run. Non-trivial: >= 1 address with >= 2 unspent outputs; distinct by history.')
+               'and the per-address aggregation of the real unspentcsvdump run vs the real balances run. plus one history with > 65 536 unspent outputs over 7 addresses (expectation computed by the harness from the generated history; model run on it in the thorough tier). Non-trivial: >= 1 address with >= 2 unspent outputs; distinct by history.')
     cases = c07.make_cases(ck, 30 if quick else 250, few=True)
     def nontrivial(c, m):
         from collections import Counter
@@ -36,3 +36,49 @@ def explore(ck):
             if len(set(x.split(';')[0] for x in ba if x)) != len([x for x in ba if x]): ck.disagreement('an address is listed twice on ' + c.id, '', c, in_domain=True)
         except StopIteration:
             pass
+
+    big_history(ck)
+
+def big_history(ck):
+    """More than 65 536 unspent outputs spread over 7 addresses (10 000 outputs per address and more, in many transactions). The extracted model needs minutes for a history of this size
+    (hashing in Gallina), so the expectation is computed by the harness from the generated history itself (sum of the outputs it created and did not spend, per address string from the
+    python address codec) and the two real runs are cross-checked against each other; the model runs on it in the thorough tier."""
+    r = ck.rng; quick = ck.tier == 'quick'
+    coin = 'bitcoin'; keys = [gen.rb(r, 20) for _ in range(7)]
+    from .. import scripts
+    addr = {k: scripts.ref(P2PKH(k), coin)[1] for k in keys}
+    blocks = []; prev = b'\x00' * 32; expect = {}; unspent_n = 0; spendable = []
+    for h in range(7):
+        txs = [coinbase_tx(h, [(50 * 10**8, P2PKH(keys[h % 7]))], extra=gen.rb(r, 2))]; expect[addr[keys[h % 7]]] = expect.get(addr[keys[h % 7]], 0) + 50 * 10**8; unspent_n += 1
+        for j in range(5):
+            ins = [(gen.rb(r, 32), 0, b'', 0)]
+            for _ in range(3):
+                if spendable and r.random() < 0.5:
+                    tid, idx, k, v = spendable.pop(r.randrange(len(spendable))); ins.append((tid, idx, b'', 0)); expect[addr[k]] -= v; unspent_n -= 1
+            outs = []
+            for i in range(2000):
+                k = keys[(i * 3 + j + h) % 7]; v = r.randrange(1, 10**6); outs.append((v, P2PKH(k)))
+            t = Tx(ins, outs); txs.append(t)
+            for i, (v, sc) in enumerate(outs):
+                k = keys[(i * 3 + j + h) % 7]; expect[addr[k]] = expect.get(addr[k], 0) + v; unspent_n += 1
+                if i % 400 == 0: spendable.append((t.txid, i, k, v))
+        b = Block(prev, txs, time=1300000000 + h); blocks.append(b); prev = b.hash
+    c = Case('big08', coin).simple_layout(blocks)
+    rb = run.run_impl(ck.tools, c, 'balances'); ru = run.run_impl(ck.tools, c, 'unspent')
+    ck.evaluated(); ck.count('history with %d unspent outputs over 7 addresses (harness-side expectation)' % unspent_n); ck.nontrivial(('big', unspent_n))
+    bad = []
+    if rb.rc != 0 or ru.rc != 0: bad.append('exit status balances=%s unspent=%s' % (rb.rc, ru.rc))
+    else:
+        ba = [x for x in next(iter(rb.files.values())).decode().split('\n')[1:] if x]; un = [x for x in next(iter(ru.files.values())).decode().split('\n')[1:] if x]
+        want = sorted('%s;%d' % kv for kv in expect.items() if True)
+        if sorted(ba) != want: bad.append('balances rows differ from the sums of the generated history: impl=%s expected=%s' % (sorted(ba)[:3], want[:3]))
+        agg = {}
+        for l in un: f = l.split(';'); agg[f[4]] = agg.get(f[4], 0) + int(f[3])
+        if sorted('%s;%d' % kv for kv in agg.items()) != sorted(ba): bad.append('balances run differs from the aggregation of the unspentcsvdump run')
+        if len(un) != unspent_n: bad.append('unspent rows impl=%d expected=%d' % (len(un), unspent_n))
+    if bad: ck.disagreement('history with > 65536 unspent outputs', '\n'.join(bad), c, in_domain=True)
+    if not quick:
+        m = run.run_model(ck.tools, [c], ['balances'])[c.id]
+        for cb, diffs, rr in run.compare_case(ck.tools, c, m, ['balances']):
+            ck.evaluated()
+            if diffs: ck.disagreement('balances on the big history (model)', '\n'.join(diffs), c, in_domain=True)
